@@ -91,13 +91,16 @@ Definition lvl_targets (t : lvl) : list lvl := match t with Lvl _ ts => ts end.
 (* labels of a hierarchy as tuples, in order *)
 Fixpoint lvl_flat (t : lvl) : list (list val) :=
   match t with
-  | Lvl ix [] => map (fun l => [l]) (ei_labels ix)
   | Lvl ix ts =>
-      (fix go (ls : list val) (cs : list lvl) : list (list val) :=
-         match ls, cs with
-         | l :: ls', c :: cs' => map (cons l) (lvl_flat c) ++ go ls' cs'
-         | _, _ => []
-         end) (ei_labels ix) ts
+      match ts with
+      | [] => map (fun l => [l]) (ei_labels ix)
+      | _ :: _ =>
+          (fix go (cs : list lvl) (ls : list val) {struct cs} : list (list val) :=
+             match cs, ls with
+             | c :: cs', l :: ls' => map (cons l) (lvl_flat c) ++ go cs' ls'
+             | _, _ => []
+             end) ts (ei_labels ix)
+      end
   end.
 
 (* index objects of the tree, preorder *)
